@@ -18,7 +18,7 @@ except Exception:  # pragma: no cover
 
 META = {
     "technique": "executable NDDO specification in Lean 4 (Dewar-Thiel point-charge multipoles with Klopman-Ohno kernel; one-/two-centre Fock contraction driven by the index tables regenerated from the code) + theorems (22 closed forms = multipole sums, G linear/symmetric/self-adjoint, packed = 4-index contraction, one-centre factors = published expressions, rho residual characterisation/uniqueness) + per-element-pair correspondence over every element of each shipped table",
-    "level_text": "Theorems over the reals: each of the 22 local-frame integrals the code writes equals the double sum over Dewar-Thiel point charges with the Klopman-Ohno kernel (index 21 in its rotational-invariance form, the alternative square-quadrupole value is refuted by a witness); (ss|ss) is the Klopman-Ohno kernel; the packed J/K contraction equals the full 16-term NDDO sums, is linear in P, maps symmetric to symmetric and is self-adjoint; the index tables (regenerated from fock.py on every run) are the lower-triangle packing with weights 1/2; the one-centre Fock terms equal sum P[(mu nu|la si) - 1/2(mu la|nu si)] with the five one-centre integrals; the additive terms are the unique roots of their defining equations. Tied to the code by recording the arguments of the real local-frame routine for every element pair of every shipped s/sp table (diatomics over 0.6-15 A) and comparing its output with the compiled model AND with the point-charge specification, by comparing _one_center/_two_center with the model on random densities, and by linearity/symmetry/UHF-exchange probes on the real Fock builders. Round 2: an independent closed-shell NDDO energy functional and Fock operator (vf/oracle_scf.py, numpy, written from the published equations) - every density the package returns as converged must reproduce the reported electronic energy under it and be a stationary point of it, over solver x backward mode x batch layout.",
+    "level_text": "Theorems over the reals: each of the 22 local-frame integrals the code writes equals the double sum over Dewar-Thiel point charges with the Klopman-Ohno kernel (index 21 in its rotational-invariance form, the alternative square-quadrupole value is refuted by a witness); (ss|ss) is the Klopman-Ohno kernel; the packed J/K contraction equals the full 16-term NDDO sums, is linear in P, maps symmetric to symmetric and is self-adjoint; the index tables (regenerated from fock.py on every run) are the lower-triangle packing with weights 1/2; the one-centre Fock terms equal sum P[(mu nu|la si) - 1/2(mu la|nu si)] with the five one-centre integrals; the additive terms are the unique roots of their defining equations. Tied to the code by recording the arguments of the real local-frame routine for every element pair of every shipped s/sp table (diatomics over 0.6-15 A) and comparing its output with the compiled model AND with the point-charge specification, by comparing _one_center/_two_center with the model on random densities, and by linearity/symmetry/UHF-exchange probes on the real Fock builders. Round 2: an independent closed-shell NDDO energy functional and Fock operator (vf/oracle_scf.py, numpy, written from the published equations) - every density the package returns as converged must reproduce the reported electronic energy under it and be a stationary point of it, over solver x backward mode x batch layout. Translator tie: the core-core energy of the source (MNDO, AM1/PM3 branches, Gaussian summand, N-H/O-H mask) is the model's (CoreCoreTie).",
     "level_note": "Trusted: Lean kernel; harness. Absolute tolerance 1e-13*ev/r0 per integral (cancellation in pure-multipole entries), torch.sqrt is 1 ulp off IEEE on this build. Partial: Slater overlaps (diat_overlap*) and the assembly of Hcore from them are NOT modelled (listed as modelled: no); rotation and core-core terms are covered by the C02/C01 adapters; PM6 d-orbitals unmodelled.",
     "design_ref": "DESIGN.md section 5 C06",
     "modelled": {"local-frame ERIs (22/4/1)": True, "one-centre Fock": True, "two-centre J/K": True, "additive terms rho0/1/2 (residual)": True, "dd_qq": True,
